@@ -393,8 +393,8 @@ def c13_f(ctx: Ctx):
 def c13_g(ctx: Ctx):
     """Exclude handling cannot strip state point / document files from cloned jobs, and the clone / sync decision rests on DestinationExistsError (from C15-d, C04-b)."""
     from .c15 import c15_d
-    from .c04 import c04_b
-    res = [r for r in c15_d(ctx) if ("exclude" in r.construct or "clone" in r.construct) and "clone-exclude" not in r.construct] + [r for r in c04_b(ctx) if "Project.clone" in r.function]
+    from .c04 import c04_b, c04_j
+    res = c04_j(ctx) + [r for r in c15_d(ctx) if ("exclude" in r.construct or "clone" in r.construct) and "clone-exclude" not in r.construct] + [r for r in c04_b(ctx) if "Project.clone" in r.function]
     for r in res:
         r.rule = "C13-g"
     return res
